@@ -1020,6 +1020,12 @@ class MACManager(Dot15d4Manager):
         sequence_number = self.database.get("macDataSequenceNumber")
         packet.seqnum = sequence_number
         self.database.set("macDataSequenceNumber", (sequence_number + 1) % 256)
+        if wait_for_ack:
+            # Only an acknowledgement received after this frame has been sent may
+            # confirm it: drop the ones queued before (late, overheard or left over
+            # by a previous exchange, possibly with the same sequence number).
+            with self.__ack_queue.mutex:
+                self.__ack_queue.queue.clear()
         self.send('phy', packet, tag='pdu')
         wait_counter = 5
         if wait_for_ack:
